@@ -335,7 +335,8 @@ func genLine(g *simrt.Choices, i int, prop string) string {
 	// values and timestamps deliberately contain filter fragments ("5", "1", ...)
 	val := []string{"5", "1", "0.5", "55", "1e3", "-5", "+5", "0x1p-2", ".5", "-0", "5.000"}[g.Pick(11)]
 	ts := fmt.Sprintf("%d", 946684800+i%50+[]int{0, 5, 55, 500}[g.Pick(4)])
-	if prop == "C04" {
+	if prop == "C04" || g.Bool(0.1) {
+		// other whitespace layouts are valid input too; routes and destinations must still see the name only
 		seps := []string{" ", "  ", "\t", " \t "}
 		lead := []string{"", "", " ", "\t"}[g.Pick(4)]
 		trail := []string{"", "", " ", " \t"}[g.Pick(4)]
